@@ -742,8 +742,9 @@ def model_lines(stmts, pt):
         elif k == "asgt":
             out.append("asgt %d %d %s ; %s" % (st[1], st[2], tok_expr(st[3]), tok_expr(st[4])))
         elif k == "br":
-            # straight-line trace: the assignment of the branch the comparison selects at this point
-            out.append("asg %d %s" % (st[1], tok_expr(st[5] if st[7][pt] else st[6])))
+            # the model evaluates the comparison itself (Expr.branch): the recorded program is the assignment of the branch it selects
+            side = lambda x: tok_expr(x[1]) if x[0] == "e" else tok_scalar(x[1])
+            out.append("br %d %s ; %s ; %s ; %s ; %s" % (st[1], st[2], side(st[3]), side(st[4]), tok_expr(st[5]), tok_expr(st[6])))
         elif k == "cop":
             out.append("cop %d %s %s" % (st[1], st[2], tok_expr(st[3])))
         elif k == "copp":
